@@ -115,3 +115,12 @@ CHECKS["C01"] = dict(
     level_text="Random adversarial transcripts derived from honest ones by structured mutation, judged by membership in the true traversal; no completeness or order is asserted (that is C02).",
     level_note="Trusts the reference full traversal and sha2-256.",
     technique="rapid property-based testing with mutation-based adversarial transcripts", design_ref="DESIGN.md §4 C01")
+
+CHECKS["C09"] = dict(
+    pkg="props/c09", level="exploration", gomaxprocs=1,
+    rule="C02-style exchange between two real instances run twice: alone, and with a scripted third peer that, before generated delivery steps (0-8) or after the exchange, sends responses carrying the live request id: any of the 14 statuses, 0-3 metadata entries over the DAG's CIDs with any action, 0-2 genuine blocks, and extensions from {trigger/error, trigger/update, trigger/pause, other}. The requestor registers a response hook and a block hook that terminate / update / pause on seeing a trigger extension and record the peer they were called with. Oracle (differential): no hook is ever invoked with the third peer's id; nothing is sent to the third peer; the sequence of request messages (types) sent to the genuine responder is identical; delivered nodes, error multiset, stored blocks, channel closure and block-hook invocations are identical to the run without the intruder. Non-trivial: an intrusion arrives while the request's channels are still open.",
+    assumptions=_SIM_ASSUME + ["response-hook invocation counts are not compared (they depend on how the responder batches messages)"],
+    quick=dict(shards=2, timeout=400), thorough=dict(shards=16, timeout=3000),
+    level_text="Differential random testing: every case is its own control. One defect (hooks before the peer filter) found and fixed.",
+    level_note="Trusts the honest run as the reference; both runs use the same deterministic delivery order.",
+    technique="rapid differential testing with an injected third peer", design_ref="DESIGN.md §4 C09")
